@@ -52,16 +52,54 @@ def panic_sites(f):
 
 
 def inventory(ctx):
+    """panic sites per (function, kind).  The sites of a function that the reviewed tree did not have (a helper extracted
+    since: its name is not in ref/fn_names.json) are counted in every function that calls it, transitively, instead of under
+    its own name, so that moving code into a helper moves no site out of the reviewed inventory and adds none to it."""
     inv = Counter()
     msgs = defaultdict(set)
+    known = getattr(ctx.ast, "known", None) or {}
+    cg = ctx.mir.callgraph()
+    own = {}
+    is_new = {}
     for c in CRATES:
         for f in ctx.mir.by_crate[c]:
             if "::test" in f.path or f.path.startswith("bench") or f.d.get("exp"):
                 continue
+            own[f.id] = panic_sites(f)
+    def new_fn(f):
+        if f.id not in is_new:
+            base = f
+            if f.d["kind"] == "Closure":
+                par = [g for g in ctx.mir.by_crate[f.crate] if g.path == f.d.get("closure_of")]
+                base = par[0] if par else f
+            is_new[f.id] = bool(known.get(f.crate)) and base.name not in known[f.crate] and base.d["kind"] != "Closure"
+        return is_new[f.id]
+    called = set()
+    for fid, cs in cg.items():
+        for x in cs:
+            if not isinstance(x, tuple) and x != fid:
+                called.add(x)
+
+    def sites(fid, seen):
+        out = list(own.get(fid, []))
+        for x in cg.get(fid, ()):
+            if isinstance(x, tuple) or x in seen or x not in ctx.mir.fns:
+                continue
+            g = ctx.mir.fns[x]
+            if new_fn(g) and x in own:
+                out += sites(x, seen | {x})
+        return out
+
+    for c in CRATES:
+        for f in ctx.mir.by_crate[c]:
+            if f.id not in own:
+                continue
+            if new_fn(f) and (f.id in called or f.d["kind"] == "Closure"):
+                continue  # counted in its callers
             name = f.path
             if f.d["kind"] == "Closure":
                 name = f.d.get("closure_of", f.path) + "::{closure}"
-            for bb, kind, msg in panic_sites(f):
+            for bb, kind, msg in sites(f.id, {f.id}):
                 key = "%s::%s / %s" % (c, name, kind)
                 inv[key] += 1
                 if msg:
